@@ -8,6 +8,7 @@ import (
 	"fmt"
 	"io"
 	"net"
+	"os"
 	"strings"
 	"time"
 
@@ -45,21 +46,24 @@ type faultSpec struct {
 }
 
 type xferCase struct {
-	Mode     string // axfr | ixfr | uptodate | axfrstyle
-	Zone     string
-	QID      uint16
-	Serial   uint32 // the server's (new) serial
-	QSerial  uint32 // serial in the IXFR request
-	Recs     []recSpec
-	Diffs    []diffSpec
-	Sizes    []int // records per envelope
-	Tsig     *tsigSpec
-	Fault    faultSpec
-	Sender   string // harness | library | libout
-	Seg      []int
-	Trailer  bool
-	Compress bool
-	Rounds   []string // library / libout sender: requests sent over ONE connection ("xfr" | "query"); empty = one transfer
+	Mode          string // axfr | ixfr | uptodate | axfrstyle
+	Zone          string
+	QID           uint16
+	Serial        uint32 // the server's (new) serial
+	QSerial       uint32 // serial in the IXFR request
+	Recs          []recSpec
+	Diffs         []diffSpec
+	Sizes         []int // records per envelope
+	Tsig          *tsigSpec
+	Fault         faultSpec
+	Sender        string // harness | library | libout
+	Seg           []int
+	Trailer       bool
+	Compress      bool
+	PaceMs        int      // harness sender: pause before each envelope is written (real time; 0 = none)
+	ConsumerMs    int      // pause of the consumer between two receives from the envelope channel
+	ReadTimeoutMs int      // Transfer.ReadTimeout for paced cases (0 = the harness default of 20 s)
+	Rounds        []string // library / libout sender: requests sent over ONE connection ("xfr" | "query"); empty = one transfer
 }
 
 const watchdog = 30 * time.Second
@@ -243,6 +247,9 @@ func (c xferCase) valid() string {
 		if len(c.Tsig.Secret) == 0 || c.Tsig.KeyName != strings.ToLower(c.Tsig.KeyName) {
 			return "tsig key"
 		}
+	}
+	if c.timed() && (c.Sender != "harness" || c.PaceMs > 1000 || c.ConsumerMs > 1000 || c.PaceMs < 0 || c.ConsumerMs < 0 || c.ReadTimeoutMs < 0 || len(c.Sizes) > 12) {
+		return "timed cases: harness sender, short pauses, few envelopes"
 	}
 	switch c.Sender {
 	case "harness":
@@ -652,13 +659,20 @@ type envOut struct {
 }
 
 type result struct {
-	envs       []envOut
-	chanClosed bool
-	connClosed bool // observed at the moment the channel was found closed
-	consumed   int
+	events      []ioEvent     // deadline / read log of the receiver's end of the stream
+	readTimeout time.Duration // Transfer.ReadTimeout in force
+	envs        []envOut
+	chanClosed  bool
+	connClosed  bool // observed at the moment the channel was found closed
+	consumed    int
 }
 
 func collect(ch chan *dns.Envelope, cli closeObserver, limit time.Duration) result {
+	return collectSlow(ch, cli, limit, 0)
+}
+
+// collectSlow: a consumer that needs pause between two envelopes.
+func collectSlow(ch chan *dns.Envelope, cli closeObserver, limit, pause time.Duration) result {
 	var r result
 	wd := time.NewTimer(limit)
 	defer wd.Stop()
@@ -676,6 +690,9 @@ func collect(ch chan *dns.Envelope, cli closeObserver, limit time.Duration) resu
 				eo.RR = append(eo.RR, rr.String())
 			}
 			r.envs = append(r.envs, eo)
+			if pause > 0 {
+				time.Sleep(pause)
+			}
 			if len(r.envs) > 10000 {
 				return r
 			}
@@ -707,6 +724,8 @@ func newTransfer(c xferCase, cli *endpoint) *dns.Transfer {
 	}
 	if c.Fault.Kind == "stall" {
 		tr.ReadTimeout = 40 * time.Millisecond
+	} else if c.ReadTimeoutMs > 0 {
+		tr.ReadTimeout = time.Duration(c.ReadTimeoutMs) * time.Millisecond
 	}
 	return tr
 }
@@ -735,15 +754,28 @@ func runHarnessSender(c xferCase) (result, plan, error) {
 		reqMAC = mac
 	}
 	p := buildPlan(c, reqMAC, uint64(time.Now().Unix()))
-	srv.Write(p.stream)
-	if c.Fault.Kind != "stall" {
+	if c.PaceMs > 0 && c.Fault.Kind == "" {
+		// a slow but steady sender: every envelope arrives well within ReadTimeout of the previous one
+		go func() {
+			for _, fr := range p.frames {
+				time.Sleep(time.Duration(c.PaceMs) * time.Millisecond)
+				srv.Write(append(binary.BigEndian.AppendUint16(nil, uint16(len(fr.b))), fr.b...))
+			}
+			srv.closeWrite()
+		}()
+	} else {
+		srv.Write(p.stream)
+	}
+	if c.Fault.Kind != "stall" && !(c.PaceMs > 0 && c.Fault.Kind == "") {
 		srv.closeWrite()
 	} // stall: the sender keeps the stream open and sends nothing more; the receiver's ReadTimeout must end the transfer
 	limit := watchdog
 	if c.Fault.Kind == "stall" {
 		limit = 10 * time.Second // 250 x the shortened read timeout
 	}
-	r := collect(ch, cli, limit)
+	r := collectSlow(ch, cli, limit, time.Duration(c.ConsumerMs)*time.Millisecond)
+	r.events = cli.readEvents()
+	r.readTimeout = tr.ReadTimeout
 	srv.Close()
 	return r, p, nil
 }
@@ -893,6 +925,76 @@ func describe(r result) string {
 	return sb.String()
 }
 
+// checkDeadlines: ReadTimeout bounds the wait for EACH envelope, not the transfer as a whole
+// (a long or slow but steady transfer must not be cut). Schedule-independent form: the first
+// octets of every envelope are read under a read deadline that was set after the previous envelope
+// had been read completely, and that deadline lies about ReadTimeout ahead.
+func checkDeadlines(p plan, r result) error {
+	off := 0
+	lastDone := -1 // index of the Read event that completed the previous envelope
+	for k, fr := range p.frames {
+		start := off
+		off += 2 + len(fr.b)
+		if start >= len(p.stream) {
+			break
+		}
+		first := -1
+		for i, e := range r.events {
+			if e.kind == 'R' && e.after > start {
+				first = i
+				break
+			}
+		}
+		if first < 0 {
+			break // the receiver never got to this envelope
+		}
+		fresh := false
+		var slack time.Duration
+		for i := lastDone + 1; i < first; i++ {
+			if e := r.events[i]; e.kind == 'D' && !e.deadline.IsZero() {
+				fresh = true
+				slack = e.deadline.Sub(e.at)
+			}
+		}
+		if !fresh {
+			return pbt.Errf("envelope %d was read under a read deadline set before envelope %d had been received: ReadTimeout bounds the whole transfer instead of the wait for one envelope (a steady transfer longer than ReadTimeout would be cut)", k, k-1)
+		}
+		// (the harness reads the clock after the library did: a loaded machine only makes slack smaller)
+		if (r.readTimeout >= 10*time.Second && slack < r.readTimeout-5*time.Second) || slack > r.readTimeout+time.Second {
+			return pbt.Errf("envelope %d: read deadline set %v ahead, ReadTimeout is %v", k, slack, r.readTimeout)
+		}
+		for i := len(r.events) - 1; i >= 0; i-- {
+			if e := r.events[i]; e.kind == 'R' && e.after <= off && e.after > start {
+				lastDone = i
+				break
+			}
+		}
+	}
+	return nil
+}
+
+func (c xferCase) timed() bool { return c.PaceMs > 0 || c.ConsumerMs > 0 }
+
+// checkTimed: real-time form of the same requirement. The transfer lasts longer than ReadTimeout
+// while every envelope follows the previous one well within it: it must complete. A timeout is only
+// held against the library when the expired deadline was a stale one (set before the previous
+// envelope arrived); if even a fresh deadline expired the machine was too slow to tell.
+func checkTimed(c xferCase, p plan, r result) error {
+	err := checkComplete(c, r)
+	if err == nil {
+		pbt.Class("timed=completed")
+		return nil
+	}
+	if fe := firstErr(r); fe != nil && errors.Is(fe, os.ErrDeadlineExceeded) {
+		if derr := checkDeadlines(p, r); derr != nil {
+			return pbt.Errf("steady transfer (envelope every %d ms, consumer pause %d ms, ReadTimeout %d ms) was cut: %v; %v", c.PaceMs, c.ConsumerMs, c.ReadTimeoutMs, err, derr)
+		}
+		pbt.Class("timed=too-slow-to-tell")
+		return nil
+	}
+	return err
+}
+
 // common part: the channel closes, and the receiver has closed the connection by then.
 func checkTermination(r result) error {
 	if !r.chanClosed {
@@ -1038,6 +1140,12 @@ func checkXfer(c xferCase) error {
 		pbt.Note(kb, nontrivial, classes...)
 		if c.Fault.Kind != "" {
 			pbt.Sample("fault="+c.Fault.Kind, fmt.Sprintf("%s tsig=%v sizes=%v fault=%+v -> %s", c.Mode, c.Tsig != nil, c.Sizes, c.Fault, describe(r)))
+		}
+		if c.timed() && c.Fault.Kind == "" {
+			return checkTimed(c, p, r)
+		}
+		if err := checkDeadlines(p, r); err != nil {
+			return err
 		}
 		if c.Fault.Kind == "" || p.benign {
 			return checkComplete(c, r)
